@@ -257,10 +257,72 @@ func (rn *runner) prepare(s *Spec) (*World, func([]string) *Direct, bool) {
 	}, true
 }
 
+// selection modes of a world
+const (
+	selNone    = iota
+	selSub     // the workspace root and every module directory as input, no path flags
+	selSingles // selSub + every selection with exactly one --path or one --exclude-path (any input directory)
+	selPairs   // selSub + input ".": (<=1 path) x (<=1 exclude); module directory inputs: one path or one exclude
+	selReduced // selPairs + input ".": every 2 paths (no exclude)
+	selFull    // selSub + input ".": (<=2 paths) x (<=1 exclude); module directory inputs: (<=1 path) x (<=1 exclude)
+)
+
+var selModeNames = []string{"none", "sub", "singles", "pairs", "reduced", "full"}
+
 type worldItem struct {
-	phase string
-	spec  *Spec
-	sels  func(w *World) []Selection
+	phase   string
+	spec    *Spec
+	mode    int // selections built through the API
+	cliMode int // selections built through the CLI (selNone = world not used in the cli phase)
+	nope    bool
+}
+
+func selections(w *World, mode int, nope bool) []Selection {
+	sels := subDirSelections(w)
+	if mode <= selSub {
+		return sels
+	}
+	cands := pathCandidates(w)
+	if nope {
+		cands = append(cands, joinDir(w.ModDirs[0], "nope"))
+	}
+	single := func(in []Selection) []Selection {
+		var out []Selection
+		for _, s := range in {
+			if len(s.Paths)+len(s.Excludes) == 1 {
+				out = append(out, s)
+			}
+		}
+		return out
+	}
+	var modDirs []string
+	for _, d := range w.ModDirs {
+		if d != "." {
+			modDirs = append(modDirs, d)
+		}
+	}
+	switch mode {
+	case selSingles:
+		sels = append(sels, single(pathSelections(".", cands, 1, 1, true))...)
+		for _, d := range modDirs {
+			sels = append(sels, single(pathSelections(d, cands, 1, 1, true))...)
+		}
+	case selPairs, selReduced:
+		if mode == selPairs {
+			sels = append(sels, pathSelections(".", cands, 1, 1, true)...)
+		} else {
+			sels = append(sels, pathSelections(".", cands, 2, 1, false)...)
+		}
+		for _, d := range modDirs {
+			sels = append(sels, single(pathSelections(d, cands, 1, 1, true))...)
+		}
+	case selFull:
+		sels = append(sels, pathSelections(".", cands, 2, 1, true)...)
+		for _, d := range modDirs {
+			sels = append(sels, pathSelections(d, cands, 1, 1, true)...)
+		}
+	}
+	return sels
 }
 
 func run(r *evid.Run) {
@@ -268,40 +330,46 @@ func run(r *evid.Run) {
 	quick := r.Quick()
 	r.Rule("phase graph: every labelled import DAG on n<=3 files x every edge labelling over {plain, public, unused-plain} (thorough: + n=4 plain) " +
 		"x every assignment of the files to <=2 modules (single module as directory and as workspace root) x decoration (per-file syntax in {proto3, proto2, editions 2023, unspecified} " +
-		"and WKT import variant in {none, Any used last, Any unused first, descriptor.proto used by a custom option with a message literal + unused timestamp.proto}; quick 4 of the 16 decorations) " +
-		"x every input directory (workspace root, each module directory). phase paths: the 25 DAG shapes on 3 files x kind rotation x every assignment x every --path subset (size<=2) and --exclude-path subset (size<=1) " +
-		"over {every file, every directory, one non-existing path}. phase shadow: workspaces that supply their own google/protobuf/any.proto. phase cli: `buf build <dir> -o -#format=binpb` with the same selections on scratch directories. " +
-		"phase errors: 6 base workspaces x every token position x {delete, duplicate}. A case is distinct by (workspace, selection) resp. (base, file, token, operator); it is non-trivial if the image has >=2 files resp. the mutation is a compile error.")
-	r.Assume("the Protobuf compiler of the property is github.com/bufbuild/protocompile (the compiler buf links); it is run bare (own map resolver, standard imports, same SourceInfoMode) as the oracle")
+		"and WKT import variant in {none, Any used last, Any unused first, descriptor.proto used by a custom option with a message literal + unused timestamp.proto}; quick 2 of 16 decorations per world, thorough all 16) " +
+		"x every input directory (workspace root, each module directory). phase paths: the 25 DAG shapes on 3 files x kind rotation x assignments x every --path subset (size<=2) and --exclude-path subset (size<=1) " +
+		"over {every file, every directory, one non-existing path} (quick: 2 assignments per shape, two paths only without exclude; thorough: all 8 assignments, full product on 4 of them). " +
+		"phase shadow: workspaces that supply their own google/protobuf/any.proto. phase cli: `buf build <dir> -o -#format=binpb` with path selections on scratch directories, output decoded without bufimage. " +
+		"phase errors: 6 base workspaces x every token position x {delete, duplicate}, API and CLI (absolute and relative input directory). A case is distinct by (workspace, selection) resp. (base, file, token, operator); " +
+		"it is non-trivial if the image has >=2 files resp. the mutation is a compile error.")
+	r.Assume("the Protobuf compiler of the property is github.com/bufbuild/protocompile (the compiler buf links); it is run bare (own map resolver, standard imports, same SourceInfoMode, compiling exactly the reference targets) as the oracle")
 	r.Assume("modules are local workspace modules (no commit); remote modules with commits are covered by C10")
 	r.Assume("selections buf refuses by design (module directory as --path/--exclude-path, exclude containing a path) may error; when they build, the image is checked")
+	r.Assume("the compiler reports unused imports only for the files it is asked to compile, so a non-targeted import never carries unused-dependency markers; this is taken as 'what the compiler produces'")
 
 	var items []worldItem
-	addGraphPhase := func(n int, kinds []int, decors []int) {
+	allDecors := []int{}
+	for d := 0; d < 16; d++ {
+		allDecors = append(allDecors, d)
+	}
+	quickDecors := []int{1, 6, 11, 12}
+	addGraphPhase := func(n int, kinds []int, decorsFor func(gi, a int) []int) {
 		mods, dirs := assignments(n)
-		for _, k := range graphs(n, kinds) {
+		for gi, k := range graphs(n, kinds) {
 			for a := range mods {
-				for _, d := range decors {
+				for _, d := range decorsFor(gi, a) {
 					s := &Spec{N: n, Kind: k, Mod: mods[a], ModDirs: dirs[a], Shadow: -1}
 					decorate(s, d)
-					items = append(items, worldItem{phase: "graph", spec: s, sels: subDirSelections})
+					items = append(items, worldItem{phase: "graph", spec: s, mode: selSub})
 				}
 			}
 		}
 	}
-	decors := []int{1, 6, 11, 12}
-	if !quick {
-		decors = nil
-		for d := 0; d < 16; d++ {
-			decors = append(decors, d)
-		}
-	}
+	twoOfFour := func(gi, a int) []int { return []int{quickDecors[(gi+a)%4], quickDecors[(gi+a+2)%4]} }
 	allKinds := []int{kPlain, kPublic, kUnused}
 	for n := 1; n <= 3; n++ {
-		addGraphPhase(n, allKinds, decors)
+		if quick {
+			addGraphPhase(n, allKinds, twoOfFour)
+		} else {
+			addGraphPhase(n, allKinds, func(int, int) []int { return allDecors })
+		}
 	}
 	if !quick {
-		addGraphPhase(4, []int{kPlain}, []int{1, 6, 11, 12})
+		addGraphPhase(4, []int{kPlain}, twoOfFour)
 	}
 	r.Set("graph_phase_worlds", len(items))
 
@@ -323,19 +391,26 @@ func run(r *evid.Run) {
 					k[ed[0]][ed[1]] = allKinds[(e+rot+gi)%3]
 				}
 				for a := range mods {
+					it := worldItem{phase: "paths", nope: true}
+					if quick {
+						// two assignments per shape, rotating so that all 8 occur
+						if a != gi%len(mods) && a != (gi+3)%len(mods) {
+							continue
+						}
+						it.mode, it.cliMode = selReduced, selSingles
+					} else {
+						it.mode = selReduced
+						if rot == 0 && (a+gi)%2 == 0 {
+							it.mode = selFull
+						}
+						if rot == 0 {
+							it.cliMode = selPairs
+						}
+					}
 					s := &Spec{N: 3, Kind: k, Mod: mods[a], ModDirs: dirs[a], Shadow: -1}
 					decorate(s, (gi+5*rot)%16)
-					full := !quick
-					items = append(items, worldItem{phase: "paths", spec: s, sels: func(w *World) []Selection {
-						cands := append(pathCandidates(w), joinDir(w.ModDirs[0], "nope"))
-						sels := pathSelections(".", cands, 2, 1, full)
-						for _, d := range w.ModDirs {
-							if d != "." {
-								sels = append(sels, pathSelections(d, cands, 1, 1, true)...)
-							}
-						}
-						return sels
-					}})
+					it.spec = s
+					items = append(items, it)
 					nPathWorlds++
 				}
 			}
@@ -353,10 +428,11 @@ func run(r *evid.Run) {
 					for sh := range dirs[a] {
 						s := &Spec{N: n, Kind: k, Mod: mods[a], ModDirs: dirs[a], Shadow: sh}
 						decorate(s, d)
-						items = append(items, worldItem{phase: "shadow", spec: s, sels: func(w *World) []Selection {
-							sels := subDirSelections(w)
-							return append(sels, pathSelections(".", pathCandidates(w), 1, 1, true)...)
-						}})
+						it := worldItem{phase: "shadow", spec: s, mode: selSingles, cliMode: selSub}
+						if !quick {
+							it.mode, it.cliMode = selFull, selSingles
+						}
+						items = append(items, it)
 						nShadow++
 					}
 				}
@@ -381,7 +457,7 @@ func run(r *evid.Run) {
 		if !ok {
 			return
 		}
-		sels := it.sels(w)
+		sels := selections(w, it.mode, it.nope)
 		r.SampleEvery(i, 2503, func() any {
 			return Case{Phase: it.phase, Spec: it.spec, Selection: &sels[len(sels)-1], Files: w.BucketFiles()}
 		})
